@@ -24,7 +24,8 @@ at least one check that should have caught the change missed it when first run (
 `meta.json`, with what was missing); the generator, the simulated kernel or the oracle was then
 strengthened — never loosened — and the change is caught since. Two seeds (C03-cont-drops-signal,
 C18-dso-name-strict-read) had to be re-expressed on the current code after a `fix:` commit touched the same
-lines (original diff kept next to it). A few changes are the same mistake found independently by two
+lines (original diff kept next to it); after the audit-round fixes eleven more were re-expressed the same way and four became
+unreachable or equivalent and were retired to `/verif/seeded-retired/` with the reason (not counted here). A few changes are the same mistake found independently by two
 agents (e.g. the UTF-16 length taken from `chars().count()`); they are kept as separate entries.
 Three genuine defects of `/repo` were found on the way (C18 DSO name at a mapping end; C18 reads through
 the process id with an exited leader; no mappings at all for a process with an exited leader), see 8.3.
